@@ -11,19 +11,19 @@ TEXT = {
  "C02": ("exploration", "Commit ledger index->(term,type,hash) filled from every node's commit index after every step; oracles: a new leader of a later term holds every previously committed entry (log snapshot taken inside the election callback), no node overwrites or truncates a committed entry, no index is committed with two values, every successful task's entry is committed. Schedules include a scripted Figure-8 template on 5 voters.", "DESIGN.md 4/C02, 10.2"),
  "C03": ("exploration", "Recording FSMs: after every step each state machine's content must equal the update sub-sequence of the commit ledger up to its applied index (also right after Restore); every update id commits at one index only.", "DESIGN.md 4/C03"),
  "C04": ("exploration", "(index,term)->(type,payload hash,predecessor term) ledger over every entry ever observed in any log at any step; a leader's own log must be append-only while it stays leader of a term.", "DESIGN.md 4/C04"),
- "C05": ("fault_enumeration", "The real vote handler is driven as a function over generated voter states and requests; every request is also executed with a crash before the rename and a crash after the rename (both followed by restart from that image); oracle = reference model of the term file. The vsim checks run the same vote/term oracles on real exchanges (wire monitor + persisted-vote ledger) as incidental oracles.", "DESIGN.md 4/C05"),
+ "C05": ("fault_enumeration", "The real vote handler is driven as a function over generated voter states and requests; every request is also executed with a crash before the rename and a crash after the rename (both followed by restart from that image); oracle = reference model of the term file. The vsim checks run the same vote/term oracles on real exchanges (wire monitor + persisted-vote ledger) as incidental oracles. The self vote is the real candidate.startElection, a late bootstrap the real task handler.", "DESIGN.md 4/C05, 10.6"),
  "C06": ("fault_enumeration", "Durability census at every instant a leader raises its commit index (hook on the leader's own goroutine): crash-all-now is emulated by reading every voter's directory the way a reopen would; a majority of the voters of the leader's latest configuration must hold the entry.", "DESIGN.md 4/C06"),
  "C07": ("exploration", "History checker specialised to a single log with unique commands: positions/results of successful updates, real-time order, definitive rejections never take effect, ambiguous failures at most once, reads/barriers reflect earlier accepted updates of the same leader, every read result is a committed prefix.", "DESIGN.md 4/C07"),
- "C08": ("exploration", "Generated membership request sequences; oracles at the instant a leader appends a configuration (callback on its goroutine): predecessor committed, own-term commit done, <=1 voter differs, >=1 voter; committed configuration sequence differs by <=1 voter; C01/C02 oracles stay deciding.", "DESIGN.md 4/C08"),
+ "C08": ("exploration", "Generated membership request sequences; oracles at the instant a leader appends a configuration (callback on its goroutine): predecessor committed, own-term commit done, <=1 voter differs, >=1 voter; committed configuration sequence differs by <=1 voter; requests the leader has to refuse are refused; every node's adopted configuration is the newest configuration entry of its own log/snapshot (adoption, revert on truncation, rebuild on restart); C01/C02 oracles stay deciding.", "DESIGN.md 4/C08, 10.3"),
  "C09": ("exploration", "FSM-content oracle at every applied index incl. after restore/install, snapshot file content == committed prefix, restart of every node, convergence after heal, and any fault/panic in a node (replication reading compacted data shows up as SIGSEGV/nil dereference, caught by the driver).", "DESIGN.md 4/C09"),
- "C10": ("fault_enumeration", "Crash = kill at a named hook point inside storage-mutating sequences (image taken on the crashing goroutine at that instruction), restart from a copy of the image; oracles: restart succeeds, term/vote not older than reported, acknowledged entries retained, log contiguous with snapshot, convergence with C01-C04 oracles on.", "DESIGN.md 4/C10"),
+ "C10": ("fault_enumeration", "Crash = kill at a named hook point inside storage-mutating sequences (image taken on the crashing goroutine at that instruction), restart from a copy of the image; oracles: restart succeeds, term/vote not older than reported, acknowledged entries retained, log contiguous with snapshot, convergence with C01-C04 oracles on; a restarted node whose Serve ends with a storage error has not restarted. Crash points also inside the recording state machine (half-written snapshot file).", "DESIGN.md 4/C10, 10.2"),
  "C11": ("exploration", "Election/leadership only by voters of the node's own latest configuration (checked inside the callbacks), promotions need a completed round under that leader and a caught-up log, a leader whose committed configuration excludes it is not leader at the next observation, removed-shutdown only after a committed configuration without the node; census (C06) shows non-voter acks are not counted; template: timeout-now withheld until its target has been demoted.", "DESIGN.md 4/C11, 10.2"),
  "C12": ("exploration", "Every snapshot label published on any disk is compared (hook right after the rename) with the commit ledger: index/term, data size, and configuration == newest committed configuration entry <= index; schedules park the snapshot goroutine at its first instruction while configuration entries commit.", "DESIGN.md 4/C12"),
  "C13": ("exploration", "Model-based test of package log against (prev, [][]byte) with boundary-aimed indexes and sizes, multi-segment reads, reopen with other segment sizes, and reader goroutines on views during appends (25% of shards under the race detector).", "DESIGN.md 4/C13"),
  "C14": ("fault_enumeration", "At every hook point hit inside every log operation a kill image and (always for >=8 KiB segments) a power-loss image (per-page choice between last flushed and current content) is reopened and compared with the model before/after the interrupted operation; at each msync additionally an image as of the middle of that msync.", "DESIGN.md 4/C14, 10.3"),
  "C15": ("exploration", "Chaos schedules; any panic, fatal error, fault, Serve error, goroutine left blocked after shutdown, task that never completes is a violation; 30% of the shards run the same generator under the Go race detector in black-box mode.", "DESIGN.md 4/C15"),
- "C16": ("exploration", "Generated transfer schedules; oracles: success only with the old leader stepped down into a higher term, timeout-now only to a voter whose log (read at the write instant) holds the leader's last entry, no update completes successfully while a transfer is in progress, election safety ledger, convergence after heal.", "DESIGN.md 4/C16"),
- "C17": ("exploration", "Bounded liveness: after a generated fault history only a majority is healed; within 60 virtual seconds there must be one leader with an own-term commit, a completed probe update and caught-up healthy members; stability: a follower with a live leader refuses vote requests without transfer permission without moving its term (judged in time-frozen delivery steps).", "DESIGN.md 4/C17"),
+ "C16": ("exploration", "Generated transfer schedules; oracles: success only with the old leader stepped down into a higher term, timeout-now only to a voter whose log (read at the write instant) holds the leader's last entry, no update or membership change completes successfully while a transfer is in progress, every transfer request is answered, election safety ledger, convergence after heal.", "DESIGN.md 4/C16, 10.3"),
+ "C17": ("exploration", "Bounded liveness: after a generated fault history only a majority is healed; within 60 virtual seconds there must be one leader with an own-term commit, a completed probe update and caught-up healthy members; stability: a follower with a live leader refuses vote requests without transfer permission without moving its term (judged in time-frozen delivery steps by the follower's own idea of its leader; in scripted deliveries also by the clock: leader acknowledged less than one election timeout ago over a connection that is still alive).", "DESIGN.md 4/C17, 10.3"),
  "C18": ("exploration", "Round-trip + exact consumption + all proper prefixes rejected, for generated values of every encoded type, append streams through bufio, and persisted identity/term/vote for all 64-bit values.", "DESIGN.md 4/C18"),
  "C19": ("exploration", "A GetInfo task is handed to every idle node after every step; successive reports of one incarnation must be monotonic in term/commit/applied/snapshot index, ordered internally, and Latest must equal the newest configuration entry found by direct inspection of log and snapshot label.", "DESIGN.md 4/C19"),
  "C20": ("exploration", "Two clusters with overlapping ids and scrambled resolvers on one network: wire oracle on every handshake and everything after it; lock model for SetIdentity/New/Serve on one directory.", "DESIGN.md 4/C20"),
